@@ -5,7 +5,6 @@ package main
 import (
 	"go/token"
 	"go/types"
-	"strings"
 
 	"golang.org/x/tools/go/ssa"
 )
@@ -34,16 +33,35 @@ func runC20E1(c *Ctx) {
 			if cc == nil {
 				return
 			}
-			name := calleeName(cc)
-			if !strings.HasPrefix(name, "(*bytes.Buffer).Write") || len(cc.Args) < 2 {
+			if sc := cc.StaticCallee(); sc != nil && isRepoFn(sc) {
+				return // a repository helper: its own writes are looked at, with its parameters traced to the call sites
+			}
+			// anything that is handed the line buffer together with data: b.WriteString(s), fmt.Fprint(b, s), io.WriteString(b, s) ...
+			bufAt := -1
+			for k, a := range cc.Args {
+				if isBufferPtr(stripIface(a).Type()) {
+					bufAt = k
+					break
+				}
+			}
+			if bufAt < 0 || len(cc.Args) < 2 {
 				return
 			}
 			n++
-			c.check("C20.E1", fnKey(f)+"|no decoded URL component written to the log line", i.Pos(), !derivesThroughRepo(cc.Args[1], isDecoded),
+			bad := false
+			for k, a := range cc.Args {
+				if k == bufAt {
+					continue
+				}
+				if derivesThroughRepo(a, isDecoded) || derives(a, isDecoded) {
+					bad = true
+				}
+			}
+			c.check("C20.E1", fnKey(f)+"|no decoded URL component written to the log line", i.Pos(), !bad,
 				"url.URL.Path is the DECODED path: a request for /x%0Ay puts a raw line feed into the log buffer (one event, two lines), and %20, %25, %3F, %2F render differently from URL.String()/RequestURI(), which is what the standard library would print")
 		})
 	}
-	c.atLeast("C20.E1", "buffer writes in package logger", n, 20)
+	c.atLeast("C20.E1", "writes into the line buffer in package logger", n, 3)
 }
 
 func runC20N1(c *Ctx) {
